@@ -191,11 +191,20 @@ func condSizeFacts(info *types.Info, cond ast.Expr, a, b types.Object, f *sizeFa
 	}
 }
 
-func Size(c *core.Ctx, rule string, pkgs []*packages.Package) {
-	c.Rule(rule, "in an equality closure over two containers (slice, fp.Seq, Go map, fp.Map, fp.Set) every `return true` lies on a path on which equal sizes have been established (size test ⇒ false before it, or a guard implying equal sizes): containers of different sizes are never equal")
+func Size(c *core.Ctx, rule string, pkgs []*packages.Package, floors ...int) {
+	c.Rule(rule, "in an equality closure of package eq (or a compare closure of package ord) over two containers (slice, fp.Seq, Go map, fp.Map, fp.Set) every `return true` (`return 0`) lies on a path on which equal sizes have been established (size test ⇒ false before it, or a guard implying equal sizes): containers of different sizes are never equal")
 	n := 0
 	for _, bc := range binClosures(c, pkgs) {
-		if bc.res == nil || !types.Identical(bc.res, types.Typ[types.Bool]) {
+		if bc.res == nil {
+			continue
+		}
+		// equality closures (bool, `return true`) of package eq; compare closures (int, `return 0`) of package ord
+		equalLit := "true"
+		switch {
+		case types.Identical(bc.res, types.Typ[types.Bool]) && core.ShortPkg(bc.fb.Pkg.PkgPath) == "eq":
+		case types.Identical(bc.res, types.Typ[types.Int]) && core.ShortPkg(bc.fb.Pkg.PkgPath) == "ord":
+			equalLit = "0"
+		default:
 			continue
 		}
 		t := bc.a.Type()
@@ -208,9 +217,6 @@ func Size(c *core.Ctx, rule string, pkgs []*packages.Package) {
 			continue
 		}
 		// only equality closures: the body must not be a Less (contains a `return a.Size() < b.Size()`-style ordering) — restrict to package eq / closures handed to eq.New / EqFunc
-		if core.ShortPkg(bc.fb.Pkg.PkgPath) != "eq" {
-			continue
-		}
 		info := bc.fb.Pkg.TypesInfo
 		n++
 		facts := sizeFacts{}
@@ -240,11 +246,11 @@ func Size(c *core.Ctx, rule string, pkgs []*packages.Package) {
 				case *ast.BlockStmt:
 					walk(s.List, f)
 				case *ast.ReturnStmt:
-					if len(s.Results) == 1 && exprString(s.Results[0]) == "true" {
+					if len(s.Results) == 1 && exprString(s.Results[0]) == equalLit {
 						established := f.eq || (f.aZero && f.bZero)
 						if !established && !f.unknown {
 							bad = true
-							c.Add(rule, bc.fb.Name+"/return-true", s.Pos(), core.Violated, "`return true` is reachable without the two sizes having been compared: containers of different length (e.g. a prefix view of the same slice) compare equal — Eqv is not 'pairwise equal', not transitive, and disagrees with Hash")
+							c.Add(rule, bc.fb.Name+"/return-"+equalLit, s.Pos(), core.Violated, "`return "+equalLit+"` (equal) is reachable without the two sizes having been compared: containers of different length (e.g. a prefix view of the same slice) compare equal — Eqv is not 'pairwise equal', not transitive, and disagrees with Hash")
 						}
 					}
 				}
@@ -255,7 +261,11 @@ func Size(c *core.Ctx, rule string, pkgs []*packages.Package) {
 			c.Add(rule, bc.fb.Name, bc.fb.Pos(), core.Discharged, "true only under established equal sizes")
 		}
 	}
-	c.Floor(rule, "container equality closures", n, 2)
+	floor := 2
+	if len(floors) > 0 {
+		floor = floors[0]
+	}
+	c.Floor(rule, "container equality / compare closures", n, floor)
 }
 
 // ---------------------------------------------------------------- R-NOSWAP
